@@ -1,5 +1,5 @@
 (* Properties/C17.v — Too few generators gives a clean error at exactly the padded-size threshold. *)
-Require Import BP.Proofs.CapacityLemmas.
+Require Import BP.Proofs.CapacityLemmas BP.Proofs.ShapeProverLemmas.
 Open Scope F_scope.
 
 (* Prover: capacity below the first-phase gate count -> InvalidGeneratorsLength before the closures;
@@ -58,3 +58,18 @@ Proof.
   intros; split; intros; [eapply prove_capacity_independent | eapply verify_capacity_independent]; eassumption.
 Qed.
 Print Assumptions C17_capacity_independent.
+
+(* The proving side on sizes: Model/ShapeProver.v lists the panic sites of prove_and_return_transcript and
+   InnerProductProof::create (share(0), every msm(..).unwrap(), the indexed loops, the length and
+   power-of-two assertions, the slices in create); none is reachable, and the clean error is returned
+   exactly below the padded threshold. *)
+Theorem C17_prover_never_panics :
+  forall pcap cap n1 n, (1 <= pcap)%nat -> (n1 <= n)%nat -> forall s, prove_shape pcap cap n1 n <> OPanic s.
+Proof. exact prove_shape_total. Qed.
+Print Assumptions C17_prover_never_panics.
+
+Theorem C17_prover_shape_threshold :
+  forall pcap cap n1 n, (1 <= pcap)%nat -> (n1 <= n)%nat ->
+    (prove_shape pcap cap n1 n = OErr <-> (cap < next_pow2 n)%nat) /\ (prove_shape pcap cap n1 n = OOk <-> (next_pow2 n <= cap)%nat).
+Proof. exact prove_shape_threshold. Qed.
+Print Assumptions C17_prover_shape_threshold.
